@@ -29,6 +29,7 @@ def run(check, ctx):
     rsa_toy_rows(check, repo, thorough=ctx.tier == "thorough")
     dss_zero_component_rows(check, repo)
     rfc6979_conversion_rows(check, repo)
+    rfc6979_nonce_rows(check, repo)
     emsa_value_rows(check, repo)
     from . import eddsa_compose
     eddsa_compose.eddsa_tables(check, ctx)
@@ -732,6 +733,103 @@ def rfc6979_conversion_rows(check, repo):
     check.ob("K-pw", "K-pw|rfc6979.conversions", not wrong, mod.path, fn.lineno,
              extracted=("%d of %d rows differ: " % (len(wrong), n) + "; ".join(wrong[:3])) if wrong else "%d rows over %d orders as RFC 6979 2.3.2-2.3.4" % (n, len(orders)),
              expected="bits2int / int2octets / bits2octets of RFC 6979 for every bit string and every 0 <= x < q (a hash value that is 0 or q after bits2int included)")
+    check.count("rfc6979_rows", n)
+
+
+def rfc6979_nonce_rows(check, repo):
+    """RFC 6979 3.2 as a whole: _compute_nonce interpreted with HMAC replaced by the checker's (hashlib's) HMAC, for
+    orders where candidates are frequently out of range (q just above a power of two, toy orders), so that the retry
+    branch h.3 (K = HMAC_K(V || 0x00), V = HMAC_K(V)) is taken zero, one and several times; compared with the
+    checker's own transcription of 3.2."""
+    import hashlib
+    import hmac as _hmac
+    from .int_table import Backend
+    from ..absval import AClass
+    DSSM = "Crypto.Signature.DSS"
+    mod = repo.module(DSSM)
+    cls = repo.cls(mod, "DeterministicDsaSigScheme")
+    be = Backend(repo, "native")
+    HN = {"sha256": hashlib.sha256, "sha1": hashlib.sha1, "sha512": hashlib.sha512}
+
+    def ref(q, x, h1, hname):
+        H = HN[hname]
+        qlen = q.bit_length()
+        rlen = (qlen + 7) // 8
+
+        def bits2int(b):
+            v = int.from_bytes(b, "big")
+            return v >> (len(b) * 8 - qlen) if len(b) * 8 > qlen else v
+        z = bits2int(h1) % q
+        hl = H().digest_size
+        V, K = b"\x01" * hl, b"\x00" * hl
+        for sep in (b"\x00", b"\x01"):
+            K = _hmac.new(K, V + sep + x.to_bytes(rlen, "big") + z.to_bytes(rlen, "big"), H).digest()
+            V = _hmac.new(K, V, H).digest()
+        retries = 0
+        while True:
+            T = b""
+            while len(T) < rlen:
+                V = _hmac.new(K, V, H).digest()
+                T += V
+            k = bits2int(T)
+            if 0 < k < q:
+                return k, retries
+            retries += 1
+            K = _hmac.new(K, V + b"\x00", H).digest()
+            V = _hmac.new(K, V, H).digest()
+
+    def m_hmac_new(i, a, kw, st, node):
+        key, msg, dm = (list(a) + [None] * 3)[:3]
+        dm = kw.get("digestmod", dm)
+        hname = st.heap.get(getattr(dm, "ident", -1), {}).get("hname")
+        if not isinstance(key, (bytes, bytearray)) or not isinstance(msg, (bytes, bytearray)) or hname not in HN:
+            return UNK
+        return i.new_obj(st, label="hmac", attrs={"out": _hmac.new(bytes(key), bytes(msg), HN[hname]).digest()})
+
+    def mm_digest(i, base, a, kw, st, node):
+        h = st.heap.get(getattr(base, "ident", -1), {})
+        return h.get("out", UNK)
+    wrong = []
+    n = 0
+    hist = {}
+    orders = [(11, "sha256"), (13, "sha1"), (257, "sha256"), ((1 << 160) + 7, "sha1"), ((1 << 255) + 95, "sha256"),
+              ((1 << 256) - 189, "sha256"), ((1 << 520) + 15, "sha512"), ((1 << 161) + 3, "sha512")]
+    for q, hname in orders:
+        qlen = q.bit_length()
+        rlen = (qlen + 7) // 8
+        for t in range(10 if q < 1000 else 6):
+            x = 1 + (t * 7919 + 3) % (q - 1)
+            h1 = HN[hname](b"message %d for order %d" % (t, q)).digest()
+            want, retries = ref(q, x, h1, hname)
+            hist[min(retries, 2)] = hist.get(min(retries, 2), 0) + 1
+            it = be.interp()
+            it.extra_models["Crypto.Hash.HMAC.new"] = m_hmac_new
+            it.method_models["digest"] = mm_digest
+            it.unroll_limit = 400
+            st = State()
+            me = it.new_obj(st, mod, cls, havoc=False)
+            st.heap[me.ident].update({"_order": be.make(it, st, q), "_order_bits": qlen, "_order_bytes": rlen, "_encoding": "binary",
+                                      "_private_key": be.make(it, st, x)})
+            mh = it.new_obj(st, label="mhash", attrs={"hname": hname, "out": h1, "digest_size": len(h1)})
+            it.inject.update({"Integer": AClass(be.mod, be.cls)})
+            res = it.run(mod, repo.func(mod, "DeterministicDsaSigScheme._compute_nonce"), {"mhash": mh}, self_obj=me, state=st)
+            n += 1
+            rets = res.returns()
+            if len(rets) != 1 or res.raises():
+                wrong.append("order of %d bits, key %d, %s: not decided (%d exits, raises %s)" % (qlen, t, hname, len(rets), res.raise_classes()))
+                continue
+            v = rets[0].value
+            got = be.value(rets[0].state, v) if be.is_own(v) else v
+            if got != want:
+                wrong.append("order of %d bits with %s, row %d (%d out-of-range candidate%s before k): nonce %s, RFC 6979 3.2 gives %s" % (
+                    qlen, hname, t, retries, "" if retries == 1 else "s", hex(got)[:14] if isinstance(got, int) else got, hex(want)[:14]))
+    if hist.get(1, 0) < 3 or hist.get(2, 0) < 2:
+        raise AnalysisError("RFC 6979 nonce rows: the retry branch is reached too rarely (%s)" % hist)
+    fn = repo.func(mod, "DeterministicDsaSigScheme._compute_nonce")
+    check.ob("K-pw", "K-pw|rfc6979.nonce", not wrong, mod.path, fn.lineno,
+             extracted=("%d of %d rows differ: " % (len(wrong), n) + "; ".join(wrong[:3])) if wrong else "%d rows over %d orders as RFC 6979 3.2 (%d without, %d with one, %d with two or more out-of-range candidates)" % (
+                 n, len(orders), hist.get(0, 0), hist.get(1, 0), hist.get(2, 0)),
+             expected="k = the first candidate T in [1, q-1] of the HMAC_DRBG of RFC 6979 3.2, K and V updated with V || 0x00 between candidates (step h.3)")
     check.count("rfc6979_rows", n)
 
 
